@@ -236,6 +236,7 @@ def run(facts):
                 res.bad(key, b.loc(bi), "copy_nonoverlapping inside one allocation without a dominating guard distance >= n (regions may overlap)")
     res.floor("field_writes", n_writes, 25)
     reclaim_contract(res, facts)
+    reserve_promise(res, facts)
     split_pair(res, facts)
     clone_never_shares(res, facts)
     return res
@@ -435,3 +436,77 @@ def reclaim_contract(res, facts):
         res.bad(key, b.loc(), "a path returns true without reassigning cap", path="bb" + "->bb".join(str(x) for x in bad_true[0]))
     else:
         res.ok(key, b.loc(), "%d paths return true, each through a justified cap write" % n_true, nontrivial=True)
+
+
+def reserve_promise(res, facts):
+    """when the reservation helper returns true, capacity() - len() >= additional: every cap it writes is
+    related to NEW = len + additional (checked) by one of the recognised arguments"""
+    cands = [b for b in facts.fn_bodies() if b.kind == "assoc_fn" and b.j.get("output") == "bool" and b.arg_count == 3
+             and b.locals[1]["ty"] == "&mut " + HANDLE and any(callee(t) and callee(t)["name"] == "copy_nonoverlapping" for _, t in b.calls())]
+    if len(cands) != 1:
+        raise RuleError("reservation helper not found")
+    b = cands[0]
+    eb = ExprBuilder(b, facts, inline=True)
+    cfg = cfg_of(b)
+    calls = calls_with(b, eb)
+    base = ("deref", ("param", 1))
+    ln = ("field", base, "len")
+    cap = ("field", base, "cap")
+    add = ("param", 2)
+
+    def is_new(e):
+        e = uncast(e)
+        if isinstance(e, tuple) and e[0] == "field" and isinstance(e[1], tuple) and e[1][0] == "variant" and is_call(e[1][1], "checked_add"):
+            a = e[1][1][2]
+            return set(a) == {ln, add}
+        return False
+
+    def contains_new_plus(e, off):
+        """e >= NEW + off : e is (a max over) a checked sum of NEW and off"""
+        for x in walk(e):
+            if is_call(x, "checked_add") and any(is_new(y) for y in x[2]) and (off is None or off in x[2]):
+                return True
+        return False
+    cnt = 0
+    for w in writes_of(b, facts, eb):
+        if w["kind"] != "write" or w["field"] != "cap":
+            continue
+        cnt += 1
+        C = w["expr"]
+        key = "%s|promise|cap#%d" % (b.id, cnt)
+        ctx = Ctx(b, w["bb"], facts)
+        wloc = (w["bb"], w["si"])
+        ok, how = False, ""
+        if is_new(C):
+            ok, how = True, "cap = len + additional (checked)"
+        elif is_call(C, "capacity"):
+            V = C[2][0]
+            rv = strip_ref(V)
+            if is_call(rv, "with_capacity") and (is_new(rv[2][0]) or (is_call(rv[2][0], "max") and any(is_new(x) for x in rv[2][0][2]))):
+                ok, how = True, "capacity of a fresh Vec::with_capacity(max(len + additional, _))"
+            else:
+                for r in ctx.rels:
+                    if r[0] in ("le", "lt") and is_new(r[1]) and r[2] == C:
+                        ok, how = True, "guard len + additional <= capacity(v)"
+        elif isinstance(C, tuple) and C[0] == "bin" and C[1] == "Sub" and is_call(C[2], "capacity"):
+            V = strip_ref(C[2][2][0])
+            off = C[3]
+            for (bi, p, nm, a) in calls:
+                if nm == "reserve" and "Vec" in p and strip_ref(a[0]) == V and cfg.loc_dominates((bi, 10 ** 6), wloc):
+                    k = a[1]
+                    if is_call(V, "rebuild_vec") and V[2][1] == ln and V[2][3] == off and k == add:
+                        ok, how = True, "rebuild_vec(.., len, .., off).reserve(additional): capacity >= len + off + additional"
+                    elif isinstance(k, tuple) and k[0] == "bin" and k[1] == "Sub" and contains_new_plus(k[2], off) and is_call(k[3], "len") and strip_ref(k[3][2][0]) == V:
+                        ok, how = True, "v.reserve(X - v.len()) with X >= len + additional + off: capacity >= X"
+        elif isinstance(C, tuple) and C[0] == "bin" and C[1] == "Add" and C[2] == cap:
+            off = C[3]
+            want = ("bin", "Add", ("bin", "Sub", cap, ln), off)
+            for r in ctx.rels:
+                if r[0] in ("le", "lt") and r[1] == add and r[2] == want:
+                    ok, how = True, "guard additional <= (cap - len) + off with cap += off"
+        if ok:
+            res.ok(key, b.loc(w["bb"], w["si"]), how, nontrivial=True)
+        else:
+            res.bad(key, b.loc(w["bb"], w["si"]), "capacity is re-established as %s without relating it to len + additional: reserve(n)/try_reclaim(n) could return "
+                                                  "with capacity() - len() < n" % fmt_expr(C)[:100])
+    res.floor("reserve_cap_writes", cnt, 5)
